@@ -371,7 +371,15 @@ def server_stage(rep, tier, rng, root):
     except Died as d:
         ans, died = d.answered, d
     rep.cov["evaluations"] += len(ans)
-    nv = 0
+    # the Lean model of the handler over a store whose calls can fail (Resp/ServerFault.lean): every outcome it allows for
+    # the command (no call fails; the i-th call fails with or without its entry left in the file)
+    PROBE = (b"a", b"b", b"c", b"e", b"zz")
+    mlines, mspans = [], []
+    for (op, n, errno, sync) in cases:
+        mspans.append(len(mlines) + 4)
+        mlines += ["srv.start", "kv.set 61 31", "kv.set 62 32", "kv.set 63 33", f"srvf.outcomes {req_bytes(op).hex()} " + ",".join(k.hex() for k in PROBE)]
+    mans = run_driver(mlines)
+    nv = nc = 0
     for (op, n, errno, sync), (st, ln, i_f, i_g, i_r) in zip(cases, spans):
         if st + ln > len(ans):
             rep.violation("oracle", dict(what=f"server under an injected fault: harness died / hung ({died.why if died else '?'})", script=lines[st:st + ln], answers=ans[st:]))
@@ -424,6 +432,18 @@ def server_stage(rep, tier, rng, root):
             bad = (i_g + 11, "S:4f4b", a[i_g + 11], "a later SET on another connection is not served")
         if not bad and restarted[b"d"] != "B:34":
             bad = (i_r + 11, "B:34", restarted[b"d"], "the later SET is not there after a restart")
+        if not bad:
+            mi = mspans[cases.index((op, n, errno, sync))]
+            observed = (reply if acked else "-") + "/" + ",".join(after[k] for k in PROBE) + "/" + ",".join(restarted[k] for k in PROBE)
+            allowed_m = mans[mi].split(" ") if mi < len(mans) else []
+            if not reached:
+                allowed_m = allowed_m[:1]
+            rep.count("server_fault_outcomes_compared_with_model")
+            if observed not in allowed_m:
+                nc += 1
+                if nc <= 2:
+                    rep.violation("correspondence", dict(what=f"server, {op[0]} with call {n} after it failing (errno {errno}, sync={sync}): what the client and a restart observe is none of the outcomes the Lean model of the handler over a failing store allows",
+                                                         script=sc, answers=[x[:120] for x in a], expected=" | ".join(allowed_m)[:1500], observed=observed))
         if bad:
             nv += 1
             if nv <= 3:
